@@ -147,6 +147,27 @@ fn rac_lhs_prose_offsets() {
             }
         }
     }
+    // whole files whose shape the segment grammar cannot produce (D19: a blank line inside a \\begin{code} environment; D20: a
+    // bird-track block that opens the file): the word tokens must be exactly the listed prose words, in order
+    let fixed: [(&str, &[&str]); 4] = [
+        ("Intro text.\n\n\\begin{code}\nmain :: IO ()\n\nmain = print 1\n\\end{code}\n\nMore prose here.\n", &["Intro", "text", "More", "prose", "here"]),
+        ("> main = print 1\n\nMore prose here.\n", &["More", "prose", "here"]),
+        ("> main = print 1\n> other = 2\n", &[]),
+        ("\\begin{code}\nalpha = 1\n\n\nbeta = 2\n\\end{code}\nClosing words.\n", &["Closing", "words"]),
+    ];
+    for (text, want) in fixed.iter() {
+        cases += 1;
+        let r = std::panic::catch_unwind(std::panic::AssertUnwindSafe(|| {
+            let doc = Document::new_curated(text, &parser);
+            doc.get_tokens().iter().filter(|t| matches!(t.kind, TokenKind::Word(_))).map(|t| doc.get_span_content_str(&t.span)).collect::<Vec<_>>()
+        }));
+        let ok = matches!(&r, Ok(got) if got.iter().map(|s| s.as_str()).collect::<Vec<_>>() == want.to_vec());
+        if !ok {
+            println!("RAC-CEX lhs_prose_offsets {{\"text\": {:?}, \"why\": \"the word tokens are not exactly the prose words\", \"want\": {:?}, \"got\": {:?}}}", text, want, r.ok());
+            panic!("prose-offset contract violated");
+        }
+        nontrivial += 1;
+    }
     println!("RAC-SAMPLE lhs_prose_offsets {{\"file\": {:?}, \"prose_words\": [\"Alpha\", \"beta\", \"Gamma\", \"é\", \"delta\"]}}", "Alpha beta\n> y = 2\n\nGamma é😀 delta\n");
     println!("RAC-OK lhs_prose_offsets cases={} nontrivial={} bound=<=4-of-12-segments-with-known-prose-words", cases, nontrivial);
 }
